@@ -30,6 +30,14 @@ __traceback_hide__ = True
 logger = logging.getLogger("asynq")
 
 
+def _get_source_file(fn):
+    """Best-effort source file of fn for error messages (compiled functions have none)."""
+    try:
+        return inspect.getsourcefile(fn)
+    except TypeError:
+        return getattr(fn, "__module__", None)
+
+
 def lazy(fn):
     """Converts a function into a lazy one - i.e. its call
     returns a Future bound to a function call with passed
@@ -220,11 +228,11 @@ class AsyncDecorator(PureAsyncDecorator):
         if is_asyncio_mode():
             if self.allow_sync_call:
                 logger.warning(
-                    f"asyncio mode does not support synchronous calls: {self.fn.__name__} at {inspect.getsourcefile(self.fn)}"
+                    f"asyncio mode does not support synchronous calls: {self.fn.__name__} at {_get_source_file(self.fn)}"
                 )
             else:
                 raise RuntimeError(
-                    f"asyncio mode does not support synchronous calls: {self.fn.__name__} at {inspect.getsourcefile(self.fn)}"
+                    f"asyncio mode does not support synchronous calls: {self.fn.__name__} at {_get_source_file(self.fn)}"
                 )
         else:
             return self._call_pure(args, kwargs).value()
@@ -251,11 +259,11 @@ class AsyncAndSyncPairDecorator(AsyncDecorator):
         if is_asyncio_mode():
             if self.allow_sync_call:
                 logger.warning(
-                    f"asyncio mode does not support synchronous calls: {self.fn.__name__} at {inspect.getsourcefile(self.fn)}"
+                    f"asyncio mode does not support synchronous calls: {self.fn.__name__} at {_get_source_file(self.fn)}"
                 )
             else:
                 raise RuntimeError(
-                    f"asyncio mode does not support synchronous calls: {self.fn.__name__} at {inspect.getsourcefile(self.fn)}"
+                    f"asyncio mode does not support synchronous calls: {self.fn.__name__} at {_get_source_file(self.fn)}"
                 )
         else:
             return self.sync_fn(*args, **kwargs)
